@@ -229,6 +229,12 @@ def run_check(cid: str, tier: str, seed: int) -> int:
                        "failure": {k: v for k, v in f.items() if k != "case"}}, fh, indent=1, default=repr)
         lines_out.append(f"VIOLATION property={cid} replay={rel}")
         print(f"  what: {f.get('kind')}: {str(f.get('detail'))[:400]}")
+    if os.environ.get("EQL_KEEP_KNOWN"):     # investigation aid: keep the cases behind the known findings as well
+        for f in m["failures"]:
+            if f.get("known") in known_ids and f.get("known"):
+                with open(os.path.join(replay_root, "replays", f"known-{cid}-{case_hash(f.get('case'))}.json"), "w") as fh:
+                    json.dump({"property": cid, "seed": seed, "tier": tier, "case": f.get("case"),
+                               "failure": {k: v for k, v in f.items() if k != "case"}}, fh, indent=1, default=repr)
     for e in known_entries:
         print(f"KNOWN-FINDING: property={cid} {e['id']} {e['what']} [observed in this run: {known_seen.get(e['id'], 0)}]")
     for ln in lines_out:
